@@ -49,6 +49,9 @@ pub struct Model {
     pub epoch: u32,
     /// actors that made whitespace-only changes since the last commit
     pub ws_touchers: BTreeSet<Actor>,
+    /// key of a line that was adjacent to a whole-line deletion -> the deleters
+    /// (since the last commit). Used to recognise finding F25 by root cause.
+    pub del_neighbors: BTreeMap<String, BTreeSet<Actor>>,
 }
 
 impl Model {
@@ -303,6 +306,11 @@ pub fn apply_edit(fs: &mut FileState, model: &mut Model, who: Actor, edit: &Edit
                 let i = idx(*pos, fs.lines.len());
                 let c = (*count as usize).max(1).min(fs.lines.len() - i);
                 fs.lines.drain(i..i + c);
+                for j in [i.wrapping_sub(1), i] {
+                    if let Some(l) = fs.lines.get(j) {
+                        model.del_neighbors.entry(key_of(l)).or_default().insert(who);
+                    }
+                }
             }
         }
         Edit::Replace { pos, count, lines } => {
@@ -416,6 +424,14 @@ pub fn apply_edit(fs: &mut FileState, model: &mut Model, who: Actor, edit: &Edit
                     if body.is_empty() {
                         continue;
                     }
+                    // among duplicate (filler) lines a re-indent is indistinguishable from
+                    // delete+insert: the actor becomes an admissible writer of that text
+                    if model.get(l).map(|e| !e.strict).unwrap_or(false) {
+                        let k = key_of(l);
+                        if let Some(e) = model.map.get_mut(&k) {
+                            e.writers.insert(who);
+                        }
+                    }
                     let new_ind = match how % 5 {
                         0 => format!("{ind}    "),
                         1 => format!("\t{ind}"),
@@ -438,6 +454,12 @@ pub fn apply_edit(fs: &mut FileState, model: &mut Model, who: Actor, edit: &Edit
                     if t.is_empty() {
                         continue;
                     }
+                    if model.get(l).map(|e| !e.strict).unwrap_or(false) {
+                        let k = key_of(l);
+                        if let Some(e) = model.map.get_mut(&k) {
+                            e.writers.insert(who);
+                        }
+                    }
                     *l = match how % 3 {
                         0 => format!("{t}  "),
                         1 => format!("{t}\t"),
@@ -459,6 +481,34 @@ pub fn apply_edit(fs: &mut FileState, model: &mut Model, who: Actor, edit: &Edit
         }
         Edit::ToggleFinalNewline => {
             fs.final_newline = !fs.final_newline;
+        }
+    }
+    // R2 guard: a whitespace-only edit is recognisable as such by a snapshot-based
+    // tracker only if the position-preserving alignment is the only one. If a line
+    // of the old text equals a line of the new text at a different index (possible
+    // only among duplicate/filler lines), a line diff may anchor there and see the
+    // re-indented payload lines as deleted and re-inserted by the editor: both
+    // readings are valid, so the editor becomes an admissible author of the lines
+    // this step touched.
+    if edit.is_whitespace_only() && matches!(edit, Edit::Reindent { .. } | Edit::TrailingWs { .. }) && before.lines.len() == fs.lines.len() {
+        let mut off_diagonal = false;
+        'outer: for (a, la) in before.lines.iter().enumerate() {
+            if key_of(la).is_empty() {
+                continue;
+            }
+            for (b, lb) in fs.lines.iter().enumerate() {
+                if a != b && la == lb {
+                    off_diagonal = true;
+                    break 'outer;
+                }
+            }
+        }
+        if off_diagonal {
+            for (a, l) in fs.lines.iter().enumerate() {
+                if before.lines[a] != *l {
+                    model.allow_also(l, who);
+                }
+            }
         }
     }
     let changed = *fs != before && fs.render() != before.render();
